@@ -197,7 +197,7 @@ C22_FirstBadPower(F_0, B_0, n) == Let2(F_0, B_0, LAMBDA F, B :
 (* exact inverse at a numeric coupling a                                        *)
 C22_ExactInverse(F_0, a_0, X_0) == Let3(F_0, a_0, X_0, LAMBDA F, a, X :
 
-  LET M == SEval(F, a) IN MEq(MMul(X, M), MId(Len(X))) /\ MEq(MMul(M, X), MId(Len(X))))
+  Let1(SEval(F, a), LAMBDA M : MEq(MMul(X, M), MId(Len(X))) /\ MEq(MMul(M, X), MId(Len(X)))))
 
 (* ===================== C22: decoupling series (scalars) ===================== *)
 (* A decoupling table c[n][l], n = 1..3, l = 0..n (JSON: 4 x 4 array of pairs,    *)
